@@ -78,6 +78,58 @@ def param_blind_caches(ctx, modname, only_prefix=None):
     return looked, hits
 
 
+def state_blind_caches(ctx, modname, only_prefix):
+    """methods (of the classes named by only_prefix) that compute a value from the object's *current* fields, keep it in
+    `self.<A>` the first time (`if self.A is None: self.A = f(self.fields)`) and answer from `self.A` afterwards: later changes
+    of the fields are not seen.  -> (methods inspected, [(module, function, attribute, field, store node)])"""
+    mod = ctx.repo.module(modname)
+    hits, looked = [], 0
+    for qn, fn in mod.functions.items():
+        if not qn.startswith(only_prefix):
+            continue
+        ps = param_names(fn)
+        if not ps or ps[0] != "self":
+            continue
+        looked += 1
+        cfg = cfg_of(fn)
+        feeds = set()
+        for n in cfg.returns():
+            if n.ast is not None and n.ast.value is not None and not isinstance(n.ast.value, ast.Constant):
+                for o in origins(fn, n.id, n.ast.value):
+                    if o.startswith("attr:self."):
+                        feeds.add(o[len("attr:self."):].split(".")[0])
+        for st in ast.walk(fn):
+            if not isinstance(st, ast.If):
+                continue
+            attrs = {x.attr for x in ast.walk(st.test) if isinstance(x, ast.Attribute) and dotted(x.value) == "self"}
+            attrs |= {x.args[1].value for x in ast.walk(st.test) if isinstance(x, ast.Call) and isinstance(x.func, ast.Name) and x.func.id in ("getattr", "hasattr")
+                      and len(x.args) >= 2 and isinstance(x.args[1], ast.Constant) and isinstance(x.args[1].value, str) and dotted(x.args[0]) == "self"}
+            for n in cfg.stmts(("stmt",)):
+                a = n.ast
+                if not (isinstance(a, ast.Assign) and any(a is y for b in st.body + st.orelse for y in ast.walk(b))):
+                    continue
+                for tg in a.targets:
+                    if isinstance(tg, ast.Attribute) and dotted(tg.value) == "self" and tg.attr in attrs and tg.attr in feeds:
+                        src = sorted(o[len("attr:self."):].split(".")[0] for o in origins(fn, n.id, a.value) if o.startswith("attr:self.") and not o.startswith("attr:self." + tg.attr))
+                        src = [x for x in src if x != tg.attr and not (x in mod.functions or ("%s.%s" % (qn.split(".")[0], x)) in mod.functions)] or \
+                              [x for x in src if x != tg.attr]
+                        if src and not any(h[2] == tg.attr and h[1] is fn for h in hits):
+                            hits.append((mod, fn, tg.attr, src[0], n))
+    return looked, hits
+
+
+def state_memo_obligation(ctx, modname, only_prefix, what):
+    looked, hits = state_blind_caches(ctx, modname, only_prefix)
+    out = []
+    for mod, fn, attr, field, n in hits:
+        out.append(ctx.bad("%s:%s" % (modname, fn.name), "`self.%s` keeps the value computed from `self.%s` on the first call and is returned afterwards without looking at "
+                                                       "the object again (%s)" % (attr, field, what), n.ast, mod, key="state-blind-cache:" + attr))
+    if not out:
+        out.append(ctx.ok("%s:%s*" % (modname, only_prefix), "no method answers from a value remembered from an earlier state of the object (%d methods inspected)" % looked,
+                          key="state-memo"))
+    return out
+
+
 def memo_obligation(ctx, modnames, what):
     """results for one MEMO obligation over the given modules"""
     out = []
